@@ -310,6 +310,35 @@ def frame_fall_through(peer_mod):
     return not jumps
 
 
+def stop_final_pass(node_mod):
+    """`Node._handle_connections`: the branch taken once the thread has been told to stop walks a *copy* of
+    `self.connections` and, for every connection in it, calls `close_connection_socket(conn, …)` and `conn.close(…)`,
+    then returns (the shape `Model/NodeLoop.lean: stopFinal` folds over)."""
+    fn = _fn(node_mod.Node._handle_connections)
+    for st in ast.walk(fn):
+        if isinstance(st, ast.If) and "is_stopped" in _names(st.test):
+            loops = [x for x in st.body if isinstance(x, ast.For)]
+            if not loops or not _ends_with_return(st.body):
+                return False
+            lp = loops[0]
+            it = lp.iter
+            copied = (isinstance(it, ast.Call) and isinstance(it.func, ast.Name) and it.func.id in ("list", "tuple") and
+                      "connections" in _names(it))
+            if not copied or not isinstance(lp.target, ast.Name):
+                return None if "connections" in _names(it) else False
+            var = lp.target.id
+            top = [x.value for x in lp.body if isinstance(x, ast.Expr) and isinstance(x.value, ast.Call)]
+            closes_sock = any(isinstance(c.func, ast.Attribute) and c.func.attr == "close_connection_socket" and c.args and
+                              isinstance(c.args[0], ast.Name) and c.args[0].id == var for c in top)
+            closes_conn = any(isinstance(c.func, ast.Attribute) and c.func.attr == "close" and
+                              isinstance(c.func.value, ast.Name) and c.func.value.id == var for c in top)
+            guarded = any(isinstance(x, (ast.If, ast.Try, ast.Continue, ast.Break)) for x in lp.body)
+            if guarded:
+                return None
+            return closes_sock and closes_conn
+    return None
+
+
 def extract() -> dict:
     import diameter.node.node as node_mod
     import diameter.node.peer as peer_mod
@@ -331,6 +360,10 @@ def extract() -> dict:
             out[key] = f(arg)
         except Exception:  # noqa
             out[key] = None
+    try:
+        out["stopFinalPass"] = stop_final_pass(node_mod)
+    except Exception:  # noqa
+        out["stopFinalPass"] = None
     import diameter.message.avp.avp as avp_mod
     for key, f, arg in (("addrGuard", addr_guard, avp_mod), ("frameSkipZeroGuard", frame_skip_zero_guard, peer_mod),
                         ("frameFallThrough", frame_fall_through, peer_mod)):
